@@ -1,2 +1,3 @@
+@property
 def spec(self):
     return _constraint_dimensionality(self.__constraints, self.__strict)
